@@ -71,8 +71,14 @@ func (r *Renderer) inlineResults(c *ssa.CallCommon, depth int) ([]string, bool) 
 	if !ok || c.IsInvoke() || !(newHelper(f) || (r.inlineGetters && pureGetter(f))) || r.inlineDepth >= 3 || f == r.fn {
 		return nil, false
 	}
+	// a helper that writes memory it also reads for its result (c.x = …; return c.x) is not the
+	// expression it returns: the caller-side term would read as the value before the write
+	if storesThenLoads(f) {
+		return nil, false
+	}
 	sub := NewRenderer(r.w, f)
 	sub.inlineDepth = r.inlineDepth + 1
+	sub.inlineGetters = r.inlineGetters
 	sub.subst = map[*ssa.Parameter]string{}
 	for i, p := range f.Params {
 		if i < len(c.Args) {
@@ -151,6 +157,87 @@ func (r *Renderer) inlineResults(c *ssa.CallCommon, depth int) ([]string, bool) 
 		}
 	}
 	return out, true
+}
+
+// storesThenLoads: f stores through a field address (not into a local) and a result of f is a load
+// of a field of the same name.
+func storesThenLoads(f *ssa.Function) bool {
+	written := map[string]bool{}
+	fieldName := func(fa *ssa.FieldAddr) string {
+		if st, ok := fa.X.Type().Underlying().(*types.Pointer).Elem().Underlying().(*types.Struct); ok {
+			return st.Field(fa.Field).Name()
+		}
+		return ""
+	}
+	rooted := func(v ssa.Value) bool { // not a local under construction
+		for i := 0; i < 8; i++ {
+			switch x := v.(type) {
+			case *ssa.FieldAddr:
+				v = x.X
+			case *ssa.IndexAddr:
+				v = x.X
+			case *ssa.UnOp:
+				v = x.X
+			case *ssa.Alloc:
+				return false
+			default:
+				return true
+			}
+		}
+		return true
+	}
+	for _, b := range f.Blocks {
+		for _, in := range b.Instrs {
+			if st, ok := in.(*ssa.Store); ok {
+				if fa, ok := st.Addr.(*ssa.FieldAddr); ok && rooted(fa.X) {
+					written[fieldName(fa)] = true
+				}
+			}
+		}
+	}
+	if len(written) == 0 {
+		return false
+	}
+	for _, b := range f.Blocks {
+		for _, in := range b.Instrs {
+			ret, ok := in.(*ssa.Return)
+			if !ok {
+				continue
+			}
+			for _, rv := range RetResults(ret) {
+				var walk func(v ssa.Value, d int) bool
+				walk = func(v ssa.Value, d int) bool {
+					if d > 6 {
+						return false
+					}
+					switch x := v.(type) {
+					case *ssa.UnOp:
+						if fa, ok := x.X.(*ssa.FieldAddr); ok && x.Op == token.MUL && written[fieldName(fa)] {
+							return true
+						}
+						return walk(x.X, d+1)
+					case *ssa.Phi:
+						for _, e := range x.Edges {
+							if walk(e, d+1) {
+								return true
+							}
+						}
+					case *ssa.Convert:
+						return walk(x.X, d+1)
+					case *ssa.ChangeType:
+						return walk(x.X, d+1)
+					case *ssa.Slice:
+						return walk(x.X, d+1)
+					}
+					return false
+				}
+				if walk(rv, 0) {
+					return true
+				}
+			}
+		}
+	}
+	return false
 }
 
 // pureGetter: a module function that only reads a field path of its receiver / parameters and
